@@ -82,7 +82,7 @@ def self_validate(prop: str, base: Ctx) -> dict:
     jobs = [(prop, "mutant", m) for m in muts] + [(prop, "benign", m) for m in ben]
     res = {"mutants_total": len(muts), "mutants_killed": 0, "mutants_inapplicable": 0,
            "benign_total": len(ben), "benign_silent": 0, "benign_inapplicable": 0,
-           "failures": [], "killed": []}
+           "failures": [], "killed": [], "inapplicable": []}
     if not jobs:
         return res
     with ProcessPoolExecutor(max_workers=min(16, len(jobs))) as ex:
@@ -92,6 +92,7 @@ def self_validate(prop: str, base: Ctx) -> dict:
         m = bym[name]
         if state == "inapplicable":
             res["mutants_inapplicable" if kind == "mutant" else "benign_inapplicable"] += 1
+            res["inapplicable"].append(name)
             continue
         new = [v for v in viol if (v[0], v[1]) not in base_keys]
         if kind == "mutant":
@@ -249,7 +250,8 @@ def main(argv=None) -> int:
     if sv is not None:
         print(f"   self-validation: mutants {sv['mutants_killed']}/{sv['mutants_total']} reported "
               f"({sv['mutants_inapplicable']} inapplicable to this tree), benign variants "
-              f"{sv['benign_silent']}/{sv['benign_total']} silent ({sv['benign_inapplicable']} inapplicable)")
+              f"{sv['benign_silent']}/{sv['benign_total']} silent ({sv['benign_inapplicable']} inapplicable)"
+              + (f"; inapplicable: {', '.join(sv['inapplicable'])}" if sv["inapplicable"] else ""))
     for l in lines:
         print(l)
     if unlisted:
